@@ -139,6 +139,31 @@ def _analyze_one(modname, fnname, case, timeout, floatmodel, exclusions, first):
         def trace_op(self, frame, codeobj, opcodenum):
             seen_codes.add(frame.f_code)
 
+    # paths cut short by the solver (z3 unknown) or by the per-path timeout are counted: such a path is NOT explored,
+    # and a condition with any of them is reported inconclusive even if CrossHair calls its tree exhausted
+    import crosshair.statespace as ss
+    from crosshair.util import UnexploredPath
+
+    cut = {"unknown_sat": 0, "unexplored": 0}
+    _orig_sat = ss.solver_is_sat
+    _orig_attempt = core.attempt_call
+
+    def _counted_sat(solver, *exprs):
+        try:
+            return _orig_sat(solver, *exprs)
+        except ss.UnknownSatisfiability:
+            cut["unknown_sat"] += 1
+            raise
+
+    def _counted_attempt(*a, **k):
+        try:
+            return _orig_attempt(*a, **k)
+        except UnexploredPath:
+            cut["unexplored"] += 1
+            raise
+
+    ss.solver_is_sat = _counted_sat
+    core.attempt_call = _counted_attempt
     cov = _Cov()
     cov_ok = True
     core.analyze_calltree = _wrapped
@@ -164,6 +189,8 @@ def _analyze_one(modname, fnname, case, timeout, floatmodel, exclusions, first):
     finally:
         core.analyze_calltree = _orig
         core.debug = _odebug
+        ss.solver_is_sat = _orig_sat
+        core.attempt_call = _orig_attempt
         if cov_ok:
             try:
                 COMPOSITE_TRACER.pop_config(cov)
@@ -178,7 +205,7 @@ def _analyze_one(modname, fnname, case, timeout, floatmodel, exclusions, first):
             if args is not None:
                 cex = {"args": args, "message": m["message"][:500], "kind": m["state"]}
                 break
-    notes = sorted(set(boot._NOTES))
+    notes = sorted(set(boot._NOTES), key=repr)
     funcs = sorted(
         {
             c.co_filename.split("/repo/")[-1] + ":" + getattr(c, "co_qualname", c.co_name)
@@ -204,6 +231,8 @@ def _analyze_one(modname, fnname, case, timeout, floatmodel, exclusions, first):
         error=err,
         exclusions=exclusions,
         cov_ok=cov_ok,
+        unknown_sat=cut["unknown_sat"],
+        unexplored=cut["unexplored"],
     )
     sys.stdout.write("\nVFRESULT " + json.dumps(out) + "\n")
     sys.stdout.flush()
